@@ -230,9 +230,9 @@ Definition hdr_event (s : stream) (e : sev) (h : list hitem) (ended : option Z) 
 
 Definition receive_headers (cfg : config) (hs : list hitem) (end_stream : bool) : SM (list event) :=
   let info := is_informational_response (plain hs) in
-  if info && end_stream then lift_res perr
-  else
     evs <- fsm (if info then SI_RECV_INFORMATIONAL_HEADERS else SI_RECV_HEADERS) ;;
+    (* fix 415bf1d: END_STREAM on a 1xx block is refused after the state machine was asked *)
+    (if info && end_stream then lift_res perr else ret tt) ;;;
     es <- (if end_stream then fsm SI_RECV_END_STREAM else ret []) ;;
     (* events[0].stream_ended = es_events[0] : IndexError when either list is empty *)
     match evs, (if end_stream then es else [SE_StreamEnded]) with
